@@ -25,11 +25,13 @@ import (
 	"github.com/lni/dragonboat/v4/internal/fileutil"
 	"github.com/lni/dragonboat/v4/internal/server"
 	"github.com/lni/dragonboat/v4/internal/vfs"
+	pb "github.com/lni/dragonboat/v4/raftpb"
 	"github.com/lni/dragonboat/v4/tools"
 )
 
 var nhImportCases = []string{"subset", "single", "all", "mixed", "allnew", "absent", "wrongaddr",
-	"readd_removed", "addr_changed", "kind_changed", "missing_file", "bad_checksum", "missing_meta", "truncated_file", "bad_meta"}
+	"readd_removed", "addr_changed", "kind_changed", "missing_file", "bad_checksum", "missing_meta", "truncated_file", "bad_meta",
+	"missing_external"}
 
 func nhCopyDir(src vfs.IFS, sdir string, dst vfs.IFS, ddir string) error {
 	if err := fileutil.MkdirAll(ddir, dst); err != nil {
@@ -408,6 +410,19 @@ func nhScenarioImport(rec *nhRec, tid int, seed int64, smType string, store stri
 				o.Close()
 			} else {
 				corrupt = "none"
+			}
+		case "missing_external":
+			// the exported record lists an external snapshot file that is not in the directory (lost when the
+			// export was copied to this machine): the metadata file is rewritten with the entry and a valid hash
+			corrupt = cs
+			var ess pb.Snapshot
+			if err := fileutil.GetFlagFileContent("/import", server.MetadataFilename, &ess, h.fs); err != nil {
+				panic(err)
+			}
+			ess.Files = append(ess.Files, &pb.SnapshotFile{Filepath: h.fs.PathJoin("/import", "external-file-7"), FileSize: 10, FileId: 7})
+			h.fs.Remove(h.fs.PathJoin("/import", server.MetadataFilename))
+			if err := fileutil.CreateFlagFile("/import", server.MetadataFilename, &ess, h.fs); err != nil {
+				panic(err)
 			}
 		case "bad_checksum", "truncated_file":
 			corrupt = cs
